@@ -70,6 +70,7 @@ def strategy(tier):
         # the configured range has exactly as many addresses as the scan
         # needs (pre-assigned addresses then lie outside the range)
         "tight": st.sampled_from([False, False, False, True]),
+        "reserve": st.sampled_from([0, 0, 1, 2, 3]),
     })
 
 
@@ -93,7 +94,8 @@ def run_case(case):
     if tight:
         pre = [a if not LO <= a <= LO + 60 else a - 500 for a in pre]
         # (one scan: two concurrent ones would need twice the addresses)
-        case = dict(case, mode="scan", send_error_at=None, dup_pre=False)
+        case = dict(case, mode="scan", send_error_at=None, dup_pre=False,
+                    reserve=0)
     # make pre-assigned addresses distinct
     seen = set()
     dup_pre = bool(case.get("dup_pre"))
@@ -148,6 +150,16 @@ def run_case(case):
             fault=lambda no, frame: {"send_error": True}
             if no == case.get("send_error_at") else {})
         jobs = []
+        # addresses the caller reserved beforehand (find_free_address
+        # promises never to hand them out again); they are not on the bus
+        out["reserved"] = []
+        try:
+            for _ in range(case.get("reserve", 0)):
+                out["reserved"].append(await ec.find_free_address())
+        except Exception as e:
+            out["results"] = [e]
+            out["used"] = set(ec.used_addresses)
+            return
         if case["mode"] in ("scan", "twice", "both"):
             jobs.append(ec.scan_serial_numbers())
         if case["mode"] == "twice":
@@ -186,7 +198,8 @@ def run_case(case):
     classes = [f"n={n}", f"mode={case['mode']}"] + (
         ["send-error"] if case.get("send_error_at") is not None else []) + (
         ["coinciding-leftovers"] if dup_pre else []) + (
-        ["tight-range"] if tight else []) + [
+        ["tight-range"] if tight else []) + (
+        ["reserved-before"] if case.get("reserve") else []) + [
                f"pre={sum(1 for a in pre if a)}"]
 
     def fail(what):
@@ -206,6 +219,12 @@ def run_case(case):
         if isinstance(r, BaseException) and not both:
             return fail(f"operation failed: {type(r).__name__}: {r}")
     owner = {}
+    for a in out.get("reserved", []):
+        if not LO <= a <= hi:
+            return fail(f"find_free_address returned {a}, outside the range")
+        if owner.setdefault(a, "reserved") != "reserved" \
+                or out["reserved"].count(a) > 1:
+            return fail(f"find_free_address returned {a} twice")
     for idx, new, others in world["writes"]:
         if not LO <= new <= hi:
             return fail(f"address {new} written to terminal {idx} lies "
@@ -214,8 +233,9 @@ def run_case(case):
             return fail(f"address {new} written to terminal {idx} while "
                         f"another terminal already answers at it")
         if owner.setdefault(new, idx) != idx:
-            return fail(f"address {new} handed out twice: terminals "
-                        f"{owner[new]} and {idx}")
+            return fail(f"address {new} handed out twice: "
+                        f"{'reserved by the caller before' if owner[new] == 'reserved' else 'terminals ' + str(owner[new])}"
+                        f" and terminal {idx}")
     final = [t.station for t in world["terms"]]
     if 0 in final and not both:
         return fail(f"a terminal was left without address: {final}")
